@@ -29,6 +29,7 @@ class SrcInfo:
         self.repo = repo
         self.enums = {k: list(v) for k, v in STD_ENUMS.items()}
         self.structs = {}
+        self.tuple_structs = set()
         self.files = {}
         for path in glob.glob(os.path.join(repo, 'crates/*/src/**/*.rs'), recursive=True) + glob.glob(os.path.join(repo, 'src/**/*.rs'), recursive=True):
             rel = os.path.relpath(path, repo)
@@ -64,6 +65,8 @@ class SrcInfo:
                 if mm:
                     fields.append(mm.group(1))
             self.structs.setdefault(name, fields)
+        for m in re.finditer(r'\bstruct\s+(\w+)\s*(?:<[^{;(]*>)?\s*(\(|;)', t):
+            self.tuple_structs.add(m.group(1))
 
     @staticmethod
     def _body(t, i):
